@@ -286,6 +286,9 @@ func (ex *Exec) enter(fr *Frame, st *State, b *ssa.BasicBlock, prev *ssa.BasicBl
 			if outs, ok := ex.copyLoop(fr, st, li, phis, vals); ok {
 				return outs
 			}
+			if outs, ok := ex.sumLoop(fr, st, li, phis, vals); ok {
+				return outs
+			}
 		}
 	}
 	if isHead && prev != nil && ex.WidenAtEntry {
@@ -1821,4 +1824,242 @@ func (ex *Exec) guardBound(fr *Frame, st *State, li *loopInfo, phi *ssa.Phi) *In
 		}
 	}
 	return nil
+}
+
+// sumLoop: summary of the accumulation idiom
+//     for i := c0; i < n; i++ { acc += T(src[i]) }     (also the range forms)
+// as acc = acc0 + sum of the elements src[c0:n]: known elements are added as terms, an opaque run contributes the
+// derived symbol "sum(<run>)" (non-negative, at most 255 per byte). Applied only when the loop consists of exactly the
+// head and one body block doing nothing else and c0 <= n <= len(src) is decided.
+func (ex *Exec) sumLoop(fr *Frame, st *State, li *loopInfo, phis []*ssa.Phi, vals []Val) ([]Outcome, bool) {
+	head := li.Head
+	if len(li.Body) != 2 || len(phis) != 2 || len(head.Succs) != 2 {
+		return nil, false
+	}
+	var body *ssa.BasicBlock
+	for bb := range li.Body {
+		if bb != head {
+			body = bb
+		}
+	}
+	if head.Succs[0] != body || li.Body[head.Succs[1]] || len(body.Succs) != 1 || body.Succs[0] != head {
+		return nil, false
+	}
+	exit := head.Succs[1]
+	outside := func(v ssa.Value) bool {
+		switch x := v.(type) {
+		case *ssa.Const, *ssa.Parameter, *ssa.FreeVar, *ssa.Global:
+			return true
+		case ssa.Instruction:
+			return !li.Body[x.Block()]
+		}
+		return false
+	}
+	// which phi is the index (stepped by +1), which the accumulator
+	var iphi, aphi *ssa.Phi
+	var inc *ssa.BinOp
+	var cmp *ssa.BinOp
+	isInc := func(b *ssa.BinOp, phi *ssa.Phi) bool {
+		if b.Op != token.ADD || b.X != ssa.Value(phi) {
+			return false
+		}
+		k, ok := constInt(b.Y)
+		return ok && k == 1
+	}
+	for _, in := range append(append([]ssa.Instruction{}, head.Instrs[firstNonPhi(head):]...), body.Instrs...) {
+		if b, ok := in.(*ssa.BinOp); ok {
+			for _, phi := range phis {
+				if isInc(b, phi) && inc == nil {
+					// the increment must be the phi's back edge
+					for i, e := range phi.Edges {
+						if head.Preds[i] == body && e == ssa.Value(b) {
+							inc, iphi = b, phi
+						}
+					}
+				}
+			}
+		}
+	}
+	if inc == nil {
+		return nil, false
+	}
+	for _, phi := range phis {
+		if phi != iphi {
+			aphi = phi
+		}
+	}
+	var idx ssa.Value = iphi
+	if inc.Block() == head {
+		idx = inc
+	}
+	// head: [inc] cmp if
+	for _, in := range head.Instrs[firstNonPhi(head):] {
+		switch x := in.(type) {
+		case *ssa.DebugRef:
+		case *ssa.BinOp:
+			if x == inc {
+				continue
+			}
+			if x.Op == token.LSS && cmp == nil {
+				cmp = x
+				continue
+			}
+			return nil, false
+		case *ssa.If:
+			if cmp == nil || x.Cond != ssa.Value(cmp) {
+				return nil, false
+			}
+		case *ssa.Call:
+			// len(v) of a value fixed in the loop, re-evaluated in the head
+			if bi, ok := x.Call.Value.(*ssa.Builtin); !ok || bi.Name() != "len" || len(x.Call.Args) != 1 || !outside(x.Call.Args[0]) {
+				return nil, false
+			}
+		default:
+			return nil, false
+		}
+	}
+	boundOK := cmp != nil && outside(cmp.Y)
+	if cmp != nil && !boundOK {
+		if call, ok := cmp.Y.(*ssa.Call); ok && call.Block() == head {
+			if bi, ok := call.Call.Value.(*ssa.Builtin); ok && bi.Name() == "len" && len(call.Call.Args) == 1 && outside(call.Call.Args[0]) {
+				boundOK = true
+			}
+		}
+	}
+	if cmp == nil || cmp.X != idx || !boundOK {
+		return nil, false
+	}
+	// body: &src[idx]; load; [convert]; add = acc + conv; [inc]; jump
+	var srcA *ssa.IndexAddr
+	var load *ssa.UnOp
+	var conv ssa.Value
+	var add *ssa.BinOp
+	for _, in := range body.Instrs {
+		switch x := in.(type) {
+		case *ssa.DebugRef, *ssa.Jump:
+		case *ssa.IndexAddr:
+			if srcA != nil || x.Index != idx || !outside(x.X) {
+				return nil, false
+			}
+			srcA = x
+		case *ssa.UnOp:
+			if x.Op != token.MUL || load != nil || srcA == nil || x.X != ssa.Value(srcA) {
+				return nil, false
+			}
+			load = x
+			conv = x
+		case *ssa.Convert:
+			if load == nil || x.X != ssa.Value(load) {
+				return nil, false
+			}
+			conv = x
+		case *ssa.BinOp:
+			if x == inc {
+				continue
+			}
+			if x.Op != token.ADD || add != nil {
+				return nil, false
+			}
+			add = x
+		default:
+			return nil, false
+		}
+	}
+	if srcA == nil || load == nil || add == nil {
+		return nil, false
+	}
+	if !((add.X == ssa.Value(aphi) && add.Y == conv) || (add.Y == ssa.Value(aphi) && add.X == conv)) {
+		return nil, false
+	}
+	okBack := false
+	for i, e := range aphi.Edges {
+		if head.Preds[i] == body && e == ssa.Value(add) {
+			okBack = true
+		}
+	}
+	if !okBack {
+		return nil, false
+	}
+	// values
+	var c0, acc0 *IntV
+	for i, phi := range phis {
+		iv, _ := vals[i].(*IntV)
+		if phi == iphi {
+			c0 = iv
+		} else {
+			acc0 = iv
+		}
+	}
+	var n *IntV
+	if call, ok := cmp.Y.(*ssa.Call); ok && call.Block() == head {
+		if lv, ok := ex.eval(fr, st, call.Call.Args[0]).(*SliceV); ok && !lv.Unk {
+			n = lv.Len
+			if lv.Nil {
+				n = mkConst(0, 64, true)
+			}
+			fr.regs[call] = n
+		}
+	} else {
+		n, _ = ex.eval(fr, st, cmp.Y).(*IntV)
+	}
+	src, _ := ex.eval(fr, st, srcA.X).(*SliceV)
+	if c0 == nil || acc0 == nil || n == nil || src == nil || src.Unk || src.Nil {
+		return nil, false
+	}
+	c64, n64 := st.Convert(c0, 64, true), st.Convert(n, 64, true)
+	first := c64
+	if idx == ssa.Value(inc) {
+		first = st.Arith(token.ADD, c64, mkConst(1, 64, true), "")
+	}
+	dec := func(op string, a, b *IntV) bool { v, k := st.Decide(op, a, b); return k && v }
+	if !dec(">=", first, mkConst(0, 64, true)) || !dec("<=", first, n64) || !dec("<=", n64, src.Len) {
+		return nil, false
+	}
+	cnt := st.Arith(token.SUB, n64, first, "")
+	sub := &SliceV{Obj: src.Obj, Path: src.Path, Off: st.Arith(token.ADD, src.Off, first, ""), Len: cnt, Cap: cnt}
+	segs, okS := ex.sliceSegs(st, sub)
+	if !okS {
+		return nil, false
+	}
+	w, signed := acc0.W, acc0.Signed
+	total := acc0
+	for _, sg := range st.dropEmptyRuns(segs) {
+		if sg.Run != nil {
+			_, lh, okR := st.termRange(sg.Run.Len)
+			if !okR || lh > 1<<22 {
+				return nil, false
+			}
+			name := fmt.Sprintf("sum(%s@%s,%s)", sg.Run.Src, sg.Run.Off, sg.Run.Len)
+			s := ex.syms.Get(name, 64, true)
+			if s.DefTerm == nil {
+				st.refineSym(s, 0, 255*lh)
+			}
+			total = st.Arith(token.ADD, total, st.Convert(mkSym(s), w, signed), ex.pos(add))
+			continue
+		}
+		for _, e := range sg.Elems {
+			ei, ok := e.(*IntV)
+			if !ok {
+				return nil, false
+			}
+			if cv, isC := conv.(*ssa.Convert); isC {
+				tw, ts, okT := intTypeInfo(cv.Type())
+				if !okT {
+					return nil, false
+				}
+				ei = st.Convert(ei, tw, ts)
+			}
+			total = st.Arith(token.ADD, total, st.Convert(ei, w, signed), ex.pos(add))
+		}
+	}
+	fr.regs[aphi] = total
+	if idx == ssa.Value(inc) {
+		fr.regs[iphi] = st.Convert(st.Arith(token.SUB, n64, mkConst(1, 64, true), ""), c0.W, c0.Signed)
+		fr.regs[inc] = st.Convert(n64, c0.W, c0.Signed)
+	} else {
+		fr.regs[iphi] = st.Convert(n64, c0.W, c0.Signed)
+	}
+	fr.regs[cmp] = &BoolV{Known: true, Val: false}
+	ex.Stats.CopyLoops++
+	return ex.enter(fr, st, exit, head), true
 }
